@@ -201,7 +201,53 @@ def _worker(chunk):
     return agg
 
 
+def _native_positions_counterexample():
+    """small-scope native search used as the REPLAY of an undischarged remaining_positions obligation: all assignments of
+    explicit positions {None, 0, 1, 2, -1, -2, -3} to <= 3 arguments; reference = range(num_args) minus the absolute positions"""
+    import itertools
+    from types import SimpleNamespace as NS
+
+    from pydra.compose.shell.builder import remaining_positions
+
+    for n in (1, 2, 3):
+        for ps in itertools.product([None, 0, 1, 2, -1, -2, -3], repeat=n):
+            if any(p is not None and not (-n <= p < n) for p in ps):
+                continue
+            args = [NS(name=f"f{i}", position=p) for i, p in enumerate(ps)] + [NS(name="append_args", position=None)]
+            taken = [p if p >= 0 else n + p for p in ps if p is not None]
+            try:
+                got = remaining_positions(list(args))
+            except ValueError:
+                got = "ValueError"
+            exp = "ValueError" if len(set(taken)) != len(taken) else [i for i in range(n) if i not in taken]
+            if got != exp:
+                return {"positions": list(ps), "got": got, "expected": exp}
+    return None
+
+
+def deductive(ctx):
+    """engine D: remaining_positions, first phase -- every explicitly positioned argument is entered under its absolute position
+    (negative = counted from the end), append_args / unpositioned ones are skipped -- contracts/remaining_positions.py.  An
+    obligation the solvers leave open or refute is replayed natively by a small-scope search over the real function."""
+    from contracts import remaining_positions as RP
+    from pyvc.verify import verify, summarize
+
+    res = verify(ctx, RP.contract())
+
+    def replay(rec):
+        cex = _native_positions_counterexample()
+        return cex, cex is not None
+
+    summarize(ctx, res, replay=replay)
+    open_ = [r for r in res.obligations if r["status"] != "discharged" and r["role"].startswith("property:")]
+    if open_ and not ctx.violations:
+        cex = _native_positions_counterexample()
+        if cex is not None:
+            ctx.fail(None, f"remaining_positions: obligation {open_[0]['clause']} is not discharged and the native small-scope replay finds positions={cex['positions']}: free positions {cex['got']} instead of {cex['expected']}", {"kind": "remaining_positions", **cex}, obligation=open_[0].get("id") or open_[0]["clause"], found_input=True)
+
+
 def run(ctx):
+    deductive(ctx)
     ctx.level = "other"
     base_in, base_out = ["int", "str", "file"], ["file"]
     in_types = ctx.pick(base_in, ["int", "str", "file", "float", "directory", "fs-object", "int,str", "int,..."])
@@ -273,6 +319,26 @@ def replay(rec):
     import ast
 
     case = rec["case"]
+    if "positions" in case and "items" not in case:
+        # counterexample of the remaining_positions obligation: re-run the real function on it
+        from types import SimpleNamespace as NS
+
+        from pydra.compose.shell.builder import remaining_positions
+
+        ps = case["positions"]
+        n = len(ps)
+        args = [NS(name=f"f{i}", position=p) for i, p in enumerate(ps)] + [NS(name="append_args", position=None)]
+        taken = [p if p >= 0 else n + p for p in ps if p is not None]
+        try:
+            got = remaining_positions(list(args))
+        except ValueError:
+            got = "ValueError"
+        exp = "ValueError" if len(set(taken)) != len(taken) else [i for i in range(n) if i not in taken]
+        print(f"replay C25: remaining_positions for explicit positions {ps}: free positions {got}, expected {exp}")
+        if got != exp:
+            print(f"VIOLATION property=C25 replay={rec.get('_path', '')}")
+            return 1
+        return 0
     for it in case["items"]:  # JSON turned tuple defaults into lists
         if it.get("mod") == "=":
             it["default"] = ast.literal_eval(it["default_text"])
